@@ -521,6 +521,25 @@ def r6(k: Kit) -> None:
                   'an option is arbitrary, where ssh reads 05-z before 10-a',
                   k.loc(fi, lp))
 
+    from ..index import parent
+    sites = k.calls_named(fi, 'parse', 'self')
+    for nd, c in sites:
+        x = c
+        in_args = False
+        while x is not None and x is not fi.node:
+            if isinstance(x, ast.For) and dotted(x.iter) == 'args':
+                in_args = True
+            x = parent(x)
+        rep.check(in_args, 'C18.R6', key(fi, 'argument by argument'),
+                  'the files of one Include argument are parsed inside the '
+                  'loop over the arguments',
+                  'the files matched by all arguments of an Include line are '
+                  'pooled before they are parsed: `Include b.conf a.conf` '
+                  'reads a.conf first (and a file matched twice only once), '
+                  'where ssh reads each argument\'s files in the order '
+                  'written - with first-value-wins the other file decides',
+                  k.loc(fi, nd))
+
 
 def r3_file_start(k: Kit) -> None:
     """Each configuration file starts outside any Host/Match block."""
@@ -563,3 +582,17 @@ def run(idx, rep, tier):
     r5(k)
     r6(k)
     r4(k)
+    # C18.R7: Host lines and Match criteria are pattern lists: their
+    # semantics (some positive pattern matches, no negated one does - a list
+    # of negations alone matches nothing) and the wildcard rules are C17.R1
+    # and the witnesses of C17.R5
+    from .c17 import r1 as c17r1, wildcard_witnesses
+    rep.rule('C18.R7', 'pattern lists of Host / Match lines (= C17.R1 and the '
+             'wildcard witnesses of C17.R5): a block applies iff some '
+             'positive pattern matches the whole name and no negated one '
+             'does; `Host !a` alone matches nothing, as in ssh')
+    before = len(rep.obligations)
+    c17r1(k)
+    wildcard_witnesses(k, 'C18.R7')
+    for o in rep.obligations[before:]:
+        o.rule = 'C18.R7'
